@@ -17,6 +17,7 @@
 #define protected public
 #include "Factory.hpp"
 #include "NifFile.hpp"
+#include "Particles.hpp"
 #undef private
 #undef protected
 #include "oracle.hpp"
@@ -553,6 +554,15 @@ std::string do_save3(const Case& c) {
 		NiRef* victim = all[static_cast<size_t>(c.geti("edit")) % all.size()];
 		os << "cleared=" << victim->index << " ";
 		victim->Clear();
+		// NiParticleSystem keeps ONE logical data reference in two members (dataRef / psysDataRef); every load
+		// leaves them equal and Sync copies one over the other (Particles.cpp:574-575, 609-610). An edit of
+		// that reference edits both, as any caller has to.
+		for (uint32_t i = 0; i < hdr.GetNumBlocks(); ++i)
+			if (auto ps = dynamic_cast<NiParticleSystem*>(hdr.GetBlock<NiObject>(i)))
+				if (victim == static_cast<NiRef*>(&ps->dataRef) || victim == static_cast<NiRef*>(&ps->psysDataRef)) {
+					ps->dataRef.Clear();
+					ps->psysDataRef.Clear();
+				}
 	}
 	std::string d0 = model_digest(nif);
 	std::string outs[3], digs[3];
